@@ -34,7 +34,7 @@ if ! build "$BIN/vcheck-$PROP" 2>"$BIN/build-$PROP.log"; then
   exit 2
 fi
 case "$PROP" in
-  C09|C10|C11|C12)
+  C09|C10|C11)
     if ! build "$BIN/vcheck-$PROP-race" -race 2>"$BIN/build-$PROP.log"; then
       cat "$BIN/build-$PROP.log"
       echo "INCONCLUSIVE property=$PROP race build failed"
